@@ -385,13 +385,30 @@ void apply_one_fault(const Op &op, Bytes &file, Verdict *v)
 	else pos = (size_t)((double)op.get("pos") / 1000000.0 * (double)file.size()) % file.size();
 	size_t len = (size_t)op.get("len", 1);
 	uint8_t val = (uint8_t)op.get("val");
-	static const char *names[] = { "flip", "overwrite", "insert", "delete", "truncate", "dup" };
+	static const char *names[] = { "flip", "overwrite", "insert", "delete", "truncate", "dup", "vli" };
 	switch (kind) {
 	case 0: file[pos] ^= (uint8_t)(1u << (val & 7)); break;
 	case 1: for (size_t i = 0; i < len && pos + i < file.size(); ++i) file[pos + i] = (uint8_t)(val + i * 37); break;
 	case 2: file.insert(file.begin() + (long)pos, len, val); break;
 	case 3: if (len > file.size() - pos) len = file.size() - pos; file.erase(file.begin() + (long)pos, file.begin() + (long)(pos + len)); break;
 	case 4: file.resize(pos); break;
+	case 6: {
+		// field-level fault: the variable-length integer that starts at pos is
+		// replaced by one holding a boundary value (what a hostile writer puts
+		// into a count or size field)
+		static const uint64_t base[] = { 1ull << 60, (1ull << 60) - 4, (1ull << 61), (1ull << 62), (1ull << 63) - 1, 1ull << 32, (1ull << 32) - 1, 1ull << 31, 1ull << 56, (1ull << 59), (1ull << 60) / 3, (1ull << 63) / 24, UINT64_MAX / 16 / 4, 1ull << 28, 1ull << 35, 0 };
+		uint64_t x = base[val % 16] + (uint64_t)(len % 8) - 3;
+		if (x > (1ull << 63) - 1) x = (1ull << 63) - 1;
+		size_t e = pos;
+		while (e < file.size() && e - pos < 9 && (file[e] & 0x80)) ++e;
+		if (e < file.size()) ++e;
+		uint8_t enc[10]; size_t n = 0;
+		while (x >= 0x80) { enc[n++] = (uint8_t)(x | 0x80); x >>= 7; }
+		enc[n++] = (uint8_t)x;
+		file.erase(file.begin() + (long)pos, file.begin() + (long)e);
+		file.insert(file.begin() + (long)pos, enc, enc + n);
+		break;
+	}
 	case 5: { size_t l = len * 16; if (l > file.size() - pos) l = file.size() - pos; Bytes part(file.begin() + (long)pos, file.begin() + (long)(pos + l)); file.insert(file.begin() + (long)pos, part.begin(), part.end()); break; }
 	default: return;
 	}
